@@ -427,11 +427,16 @@ func c09exec(c *Ctx, w *c09world, t, i int, op c09op) {
 			_ = zap.RegisterSink("zsim", func(*url.URL) (zap.Sink, error) { return nil, errors.New("dup") })
 		}
 	case 13:
-		switch op.b % 2 {
+		switch op.b % 4 {
 		case 0:
 			l.DPanic("dpanic in production mode just logs")
-		default:
+		case 1:
 			l.WithOptions(zap.WithPanicHook(c09panicHook{})).Panic("p")
+		case 2:
+			// the default action reads the entry's message after the cores wrote it
+			l.Panic("c09-panic default action")
+		default:
+			l.WithOptions(zap.WithFatalHook(c09readHook{})).Fatal("fatal with a hook that reads the entry", zap.Int("t", t))
 		}
 	case 14:
 		if op.b%2 == 0 {
@@ -459,3 +464,11 @@ func c09exec(c *Ctx, w *c09world, t, i int, op c09op) {
 type c09panicHook struct{}
 
 func (c09panicHook) OnWrite(*zapcore.CheckedEntry, []zapcore.Field) { panic("c09-panic") }
+
+type c09readHook struct{}
+
+func (c09readHook) OnWrite(ce *zapcore.CheckedEntry, fs []zapcore.Field) {
+	if len(ce.Message)+len(ce.LoggerName)+len(fs) < 0 || ce.Level > zapcore.FatalLevel+1 {
+		sinkhole = 1
+	}
+}
